@@ -3,6 +3,7 @@ package c13
 import (
 	"fmt"
 	"math/rand"
+	"os"
 	"strings"
 )
 
@@ -121,6 +122,35 @@ type genOpts struct {
 	allowHeaderWithSplittableCells bool
 }
 
+// defaultOpts returns the generator options.  VERIF_C13_ALLOW (development only, e.g. "F1,F2,F7")
+// lifts the named restrictions, to try the check on a tree where the defects are repaired.
+func defaultOpts() genOpts {
+	o := genOpts{rtl: true}
+	for _, f := range strings.Split(os.Getenv("VERIF_C13_ALLOW"), ",") {
+		switch strings.TrimSpace(f) {
+		case "F1":
+			o.allowEmptyOriginColumns = true
+		case "F2":
+			o.allowLoneSpanEnd = true
+		case "F3":
+			o.allowFixedCellBoxes = true
+		case "F4":
+			o.allowFixedSpanWidth = true
+		case "F5":
+			o.allowSpanPercent = true
+		case "F6":
+			o.allowSpanAllConstrained = true
+		case "F7":
+			o.allowPercentOver100 = true
+		case "F8":
+			o.allowAllConstrainedSpecified = true
+		case "F11":
+			o.allowHeaderWithSplittableCells = true
+		}
+	}
+	return o
+}
+
 func (g *genState) id(prefix string) string {
 	g.next++
 	return fmt.Sprintf("%s%d", prefix, g.next)
@@ -161,7 +191,7 @@ func (g *genState) spanAttr() string { return spanChoices[g.r.Intn(len(spanChoic
 
 // genCase builds one document.
 func genCase(r *rand.Rand, i int, tier string) caseIn {
-	g := &genState{r: r, opt: genOpts{rtl: true}}
+	g := &genState{r: r, opt: defaultOpts()}
 	var c caseIn
 	c.BodyW = pickF(r, 20, 40, 60, 90, 120, 160, 200, 300, 400, 600, 1000, 2000)
 	c.Paged = r.Intn(10) < 3
